@@ -46,7 +46,7 @@ Definition truthy (v : value) : bool :=
 
 (* ---- Equals ---- *)
 Definition int_float_eqb (z : Z) (f : fl) : bool :=
-  (* float64(z) == f ; exact for |z| <= 2^53, the modelled domain *)
+  (* float64(z) == f ; the conversion is exact up to 2^53 and rounds to the nearest float64 beyond, as Go's does *)
   match fl_of_int z with Some g => fl_eqb g f | None => false end.
 
 Definition equals (a c : value) : bool :=
